@@ -55,19 +55,19 @@ def record_checks(ctx, fi, label, rec, S, explicit=False, whitened=False):
                   '%s: the record is misaligned - %s' % (label, '; '.join('%s on %s' % kv for kv in axes.items())))
         if not same:
             return
-    ctx.check(tpl.axes[0] is Samp, 'C05.A1', fi, label, '%s: waveform rows are samples' % label, '%s: waveform rows are over %s' % (label, tpl.axes[0]))
-    ctx.check(isinstance(ch.elem, Ix) and ch.elem.space is Chan, 'C05.A1', fi, label, '%s: channel_ids index the channel space' % label, '%s: channel_ids hold %s' % (label, ch.elem))
+    ctx.check(tpl.axes[0] is Samp, 'C05.A1', fi, label, '%s: waveform rows are samples' % label, '%s: waveform rows are over %s' % (label, tpl.axes[0]), value=tpl)
+    ctx.check(isinstance(ch.elem, Ix) and ch.elem.space is Chan, 'C05.A1', fi, label, '%s: channel_ids index the channel space' % label, '%s: channel_ids hold %s' % (label, ch.elem), value=getattr(ch, 'elem', ch))
     # A3 dimension
     want = AMPWH if whitened else AMP
     if isinstance(tpl.elem, Q):
         ctx.check(tpl.elem.dim == want.dim, 'C05.A3', fi, label, '%s: waveform has dimension %s' % (label, want),
-                  '%s: waveform has dimension %s, expected %s (stored templates x inverse whitening; the whitening matrix instead of its inverse gives amp*wh^2)' % (label, tpl.elem, want))
+                  '%s: waveform has dimension %s, expected %s (stored templates x inverse whitening; the whitening matrix instead of its inverse gives amp*wh^2)' % (label, tpl.elem, want), value=getattr(tpl, 'elem', tpl))
     else:
         ctx.undecided('C05.A3', fi, '%s: waveform element type %s' % (label, tpl.elem))
     # amplitude = ptp over samples of the waveform dimension
     if isinstance(amp.elem, Q):
         ctx.check('ptp:Samp' in amp.elem.tags and amp.elem.dim == want.dim, 'C05.A2', fi, label, '%s: amplitude = max - min over samples of the returned waveform' % label,
-                  '%s: amplitude is %s, expected the peak-to-peak over samples of the returned (%s) waveform' % (label, amp.elem, want))
+                  '%s: amplitude is %s, expected the peak-to-peak over samples of the returned (%s) waveform' % (label, amp.elem, want), value=getattr(amp, 'elem', amp))
     else:
         ctx.undecided('C05.A2', fi, '%s: amplitude element type %s' % (label, amp.elem))
     # A2 ordering
@@ -191,17 +191,31 @@ def run(ctx):
         if t == 'not%s' % tp and any(isinstance(x, ast.Assign) and unparse(x.targets[0]) == tp for x in i.body):
             ctx.violated('C05.K2', fb, i, '`if not %s:` replaces an explicit threshold of 0 by the model default' % tp)
     fwd = [c for c in repo.lookup_method(cls, '_get_template_dense').calls() if q.method_name(c) == '_find_best_channels']
-    ctx.check(bool(fwd) and q.kwarg(fwd[0], 'amplitude_threshold') is not None and unparse(q.kwarg(fwd[0], 'amplitude_threshold')) == 'amplitude_threshold', 'C05.K2',
-              repo.lookup_method(cls, '_get_template_dense'), fwd[0] if fwd else '_get_template_dense', "the caller's threshold is forwarded unchanged", "the caller's threshold is not forwarded to _find_best_channels")
+    gtd = repo.lookup_method(cls, '_get_template_dense')
+    fwd = [(f_, c) for f_ in repo.transparent_closure(gtd) for c in f_.calls() if q.method_name(c) == '_find_best_channels']
+    thr_p = 'amplitude_threshold'
+    thr_a = q.arg(fwd[0][1], 1, thr_p) if fwd else None
+    thr_x = fwd[0][0].expand(thr_a) if thr_a is not None else None
+    ctx.tri(thr_x is not None and fwd[0][0] is gtd and Pat().m(thr_p, thr_x),
+            bool(fwd) and fwd[0][0] is gtd and (thr_a is None or isinstance(thr_x, ast.Constant) or (isinstance(thr_x, ast.Attribute) and isinstance(thr_x.value, ast.Name) and thr_x.value.id == 'self')),
+            'C05.K2', gtd, fwd[0][1] if fwd else '_get_template_dense', "the caller's threshold is forwarded unchanged",
+            "the caller's threshold is not forwarded to _find_best_channels (`%s`)" % (unparse(thr_a) if thr_a is not None else 'no argument'), 'forwarding of the threshold not recognised')
     # get_closest_channels details: distance to the given channel, first n
     gc = repo.func(M, 'get_closest_channels')
     S = Shape(repo, inline_depth=2)
     out = S.result(gc, {'channel_positions': Arr((Chan, B('XY')), UM), 'channel_index': Ix(Chan), 'n': Q()})
     sl = [n for n in gc.nodes(ast.Subscript) if isinstance(n.slice, ast.Slice) and n.slice.lower is None and n.slice.upper is not None and unparse(n.slice.upper) == gc.params[2]]
-    ctx.check(bool(sl) and not S.reports, 'C05.A4', gc, sl[0] if sl else 'get_closest_channels', 'the first n entries of the distance order are returned',
-              'get_closest_channels does not return the first n entries of the order (%s)' % [r.msg for r in S.reports][:1])
-    x0 = [a for a in gc.nodes(ast.Assign) if isinstance(a.value, ast.Subscript) and unparse(a.value).replace(' ', '') == '%s[%s]' % (gc.params[0], gc.params[1])]
-    ctx.check(bool(x0), 'C05.A4', gc, x0[0] if x0 else 'get_closest_channels', 'distances are measured from the position of the given channel', 'distances are not measured from channel_positions[channel_index]')
+    sl = [n for n in gc.nodes(ast.Subscript) if Pat().any(['E_o[:%s]' % gc.params[2], 'E_o[0:%s]' % gc.params[2]], n)]
+    sl_bad = [n for n in gc.nodes(ast.Subscript) if Pat().any(['E_o[-%s:]' % gc.params[2], 'E_o[%s:]' % gc.params[2], 'E_o[:%s + E_k]' % gc.params[2], 'E_o[:%s - E_k]' % gc.params[2], 'E_o[1:%s]' % gc.params[2],
+                                                              'E_o[1:%s + 1]' % gc.params[2]], n)]
+    ctx.tri(bool(sl) and not S.reports, bool(S.reports) or (not sl and bool(sl_bad)), 'C05.A4', gc, (sl or sl_bad or ['get_closest_channels'])[0], 'the first n entries of the distance order are returned',
+            'get_closest_channels does not return the first n entries of the order (%s)' % ([r.msg for r in S.reports][:1] or [unparse(x) for x in sl_bad][:1]), 'selection of the n nearest channels not recognised')
+    refs = [n for n in gc.nodes(ast.Subscript) if Pat().m(gc.params[0], n.value) and not isinstance(n.slice, (ast.Slice, ast.Tuple))]
+    x0 = [n for n in refs if Pat().any(['%s[%s]' % (gc.params[0], gc.params[1]), '%s[%s, :]' % (gc.params[0], gc.params[1])], n)] + \
+         [n for n in gc.nodes(ast.Subscript) if Pat().any(['%s[%s, :]' % (gc.params[0], gc.params[1]), '%s[%s, ...]' % (gc.params[0], gc.params[1])], n)]
+    other_ref = [n for n in refs if not Pat().m('%s[%s]' % (gc.params[0], gc.params[1]), n) and (isinstance(n.slice, ast.Constant) or (isinstance(n.slice, ast.Name) and n.slice.id != gc.params[1]))]
+    ctx.tri(bool(x0), not x0 and bool(other_ref), 'C05.A4', gc, (x0 or other_ref or ['get_closest_channels'])[0], 'distances are measured from the position of the given channel',
+            'distances are not measured from channel_positions[channel_index] (`%s`)' % (unparse(other_ref[0]) if other_ref else ''), 'reference position of the distances not recognised')
     fbc = repo.lookup_method(cls, '_find_best_channels')
     call = [c for c in fbc.calls() if dotted(c.func) == 'get_closest_channels']
     if not call or len(call[0].args) < 3:
